@@ -59,7 +59,7 @@ def generate_changing_data(
             "Number of segments (len(changepoints) + 1),"
             + " means and variances must be the same."
         )
-    if any([changepoint > n - 1 for changepoint in changepoints]):
+    if any([changepoint < 0 or changepoint > n - 1 for changepoint in changepoints]):
         raise ValueError(
             "Changepoints must be within the range of the data"
             + f" (n={n} and max(changepoints)={max(changepoints)})."
@@ -128,7 +128,7 @@ def generate_anomalous_data(
         raise ValueError("Anomalies must be of length 2.")
     if any([anomaly[1] <= anomaly[0] for anomaly in anomalies]):
         raise ValueError("The start of an anomaly must be before its end.")
-    if any([anomaly[1] > n for anomaly in anomalies]):
+    if any([anomaly[0] < 0 or anomaly[1] > n for anomaly in anomalies]):
         raise ValueError("Anomalies must be within the range of the data.")
 
     p = len(means[0])
